@@ -15,9 +15,10 @@ SeqsOf == {<<1>>, <<2>>, <<3>>, <<1, 2>>, <<1, 3>>, <<2, 3>>, <<1, 2, 3>>}
 TsFam == IF Family = "quick"
          THEN { [start |-> <<1, 2, 3>>, commit |-> <<4, 5, 6>>],      \* all overlap
                 [start |-> <<1, 3, 5>>, commit |-> <<2, 4, 6>>],      \* sequential
-                [start |-> <<3, 1, 4>>, commit |-> <<5, 2, 6>>] }
+                [start |-> <<3, 1, 4>>, commit |-> <<5, 2, 6>>],
+                [start |-> <<1, 3, 4>>, commit |-> <<3, 4, 6>>] }     \* ties: a commit ts equal to another start ts is not newer
          ELSE { [start |-> s, commit |-> c] : s \in {<<1, 2, 3>>, <<1, 3, 5>>, <<3, 1, 4>>, <<5, 3, 1>>, <<2, 4, 1>>},
-                                               c \in {<<4, 5, 6>>, <<2, 4, 6>>, <<5, 2, 6>>, <<6, 4, 2>>, <<3, 6, 7>>} }
+                                               c \in {<<4, 5, 6>>, <<2, 4, 6>>, <<5, 2, 6>>, <<6, 4, 2>>, <<3, 6, 7>>, <<3, 4, 6>>} }
 KeyFam == IF Family = "quick"
           THEN { <<a, b, c>> : a \in {<<1, 2>>, <<1, 2, 3>>}, b \in {<<2>>, <<2, 3>>, <<1, 3>>}, c \in {<<1>>, <<1, 3>>, <<2, 3>>} }
           ELSE { <<a, b, c>> : a \in SeqsOf, b \in SeqsOf, c \in SeqsOf }
